@@ -1,5 +1,6 @@
 import NjectProofs.IncludeSkip
 import NjectProofs.IncludeMono
+import NjectProofs.IncludeRounds
 import NjectProps.C15b
 /-
   C16 (excluded providers are inert), the part that is a theorem about the include computation:
@@ -107,6 +108,16 @@ theorem C16_pruned_providers_are_not_included (ti : TyInfo) (funcs : List CP) (c
       rw [(xf.2 j).1, ← pruneStages_cannot_eq, ← (xf.2 j).2.1]
       exact hj
     exact key _ (by injection hpre) (providesReturns_XF ti (pruneStages ch1) (initPosOf funcs))
+
+/-- **C16 (the elimination rounds end)**: on a chain without Clusters -- the chains C16 is claimed for -- the rounds of
+    trial eliminations (include.go:181-192, "propose again until nothing more can be removed") are over within the
+    `length + 1` rounds the model allows: more fuel gives the same chain.  (A trial sets one exclusion flag and either
+    keeps it or puts it back, so a round never lowers the number of excluded providers; a round that is followed by
+    another one has raised it; it cannot exceed the length.) -/
+theorem C16_elimination_rounds_fuel_is_enough (ch : Chain) (hn : NoCl ch) (extra : Nat) :
+    proposalLoop (ch.length + 1 + extra) ch = proposalLoop (ch.length + 1) ch := by
+  have := countExcluded_le ch
+  exact proposalLoop_fuel _ _ ch hn (by omega) (by omega)
 
 /-- premises are satisfiable: provider 1 is Shun'd and a farther provider of its type remains; it is excluded, and
     the final function's dependency is provider 0 -/
